@@ -170,7 +170,9 @@ func (c17World) Run(prop string, ch *zsim.Choices, trace bool) *RunResult {
 				err := cbor.Cbor2JsonManyObjects(bytes.NewReader(ev), &out)
 				return out.Bytes(), err
 			})
-			if r.panicked != nil || r.err != nil || len(r.out) == 0 || r.out[len(r.out)-1] != '\n' || bytes.Count(r.out, []byte("\n")) != 1 {
+			// (byte strings are copied into the JSON unescaped by this decoder, so a decoded
+			// event may contain raw newlines: events are compared as byte blocks, not as lines)
+			if r.panicked != nil || r.err != nil || len(r.out) == 0 || r.out[len(r.out)-1] != '\n' {
 				zsim.Fail("C17.valid_event", "a complete event written by the binary logger does not decode to one line: err=%v panic=%v out=%s event=%s", r.err, r.panicked, clip(r.out, 200), hexClip(ev, 200))
 			}
 			lines = append(lines, append([]byte{}, r.out...))
@@ -191,10 +193,13 @@ func (c17World) Run(prop string, ch *zsim.Choices, trace bool) *RunResult {
 			}
 			var out bytes.Buffer
 			n, err := zerolog.ConsoleWriter{Out: &out, NoColor: true}.Write(ev)
-			// (n is the length of the decoded JSON in the binary build, not len(ev); the
-			// property says nothing about it, so it is not checked)
-			if err != nil || n <= 0 || !bytes.Contains(out.Bytes(), []byte("binary event")) {
-				zsim.Fail("C17.entry_points", "ConsoleWriter.Write of a valid binary event returned (%d, %v) and wrote %s", n, err, clip(out.Bytes(), 200))
+			// ConsoleWriter may legitimately report an error for a valid binary event: the
+			// decoder's JSON is not always valid JSON for byte strings with quotes, control
+			// or non-UTF-8 bytes (that is C08's subject, not this property's). What must hold
+			// here: no panic, and success means the line was rendered. (n is the length of
+			// the decoded JSON in the binary build, not len(ev); not checked either.)
+			if err == nil && (n <= 0 || !bytes.Contains(out.Bytes(), []byte("binary event"))) {
+				zsim.Fail("C17.entry_points", "ConsoleWriter.Write of a valid binary event returned (%d, nil) but wrote %s", n, clip(out.Bytes(), 200))
 			}
 			consoleRef = append(consoleRef, append([]byte{}, out.Bytes()...))
 		}
@@ -225,7 +230,7 @@ func (c17World) Run(prop string, ch *zsim.Choices, trace bool) *RunResult {
 						} else {
 							var out bytes.Buffer
 							_, err := zerolog.ConsoleWriter{Out: &out, NoColor: true}.Write(ev)
-							if err != nil || !bytes.Equal(out.Bytes(), consoleRef[i]) {
+							if (err != nil) != (len(consoleRef[i]) == 0) || !bytes.Equal(out.Bytes(), consoleRef[i]) {
 								zsim.Fail("C17.entry_points", "ConsoleWriter used by several goroutines: event %d gave (%v) %s, alone %s", i, err, clip(out.Bytes(), 160), clip(consoleRef[i], 160))
 							}
 						}
@@ -286,17 +291,11 @@ func (c17World) Run(prop string, ch *zsim.Choices, trace bool) *RunResult {
 			for i := 0; i < whole; i++ {
 				want = append(want, lines[i]...)
 			}
-			got := r.out
-			if i := bytes.LastIndexByte(got, '\n'); i >= 0 {
-				got = got[:i+1]
-			} else {
-				got = nil
-			}
 			if partial {
-				// whatever was emitted for the partial event after the last complete line is ignored,
-				// but the complete lines must be there and an error must be reported
-				if !bytes.HasPrefix(got, want) || bytes.Count(got, []byte("\n")) != whole {
-					zsim.Fail("C17.prefix", "stream of %d bytes cut at offset %d (%d whole events + a partial one): the decoded complete lines differ from the full stream's\n got  %s\n want %s", len(stream), k, whole, clip(got, 300), clip(want, 300))
+				// whatever was emitted for the partial event after the complete ones is ignored,
+				// but the complete events must be there, unchanged, and an error must be reported
+				if !bytes.HasPrefix(r.out, want) {
+					zsim.Fail("C17.prefix", "stream of %d bytes cut at offset %d (%d whole events + a partial one): the output does not start with the decoded whole events (first difference at byte %d)\n got  %s\n want %s", len(stream), k, whole, firstDiff(r.out, want), clip(r.out, 300), clip(want, 300))
 				}
 				if r.err == nil {
 					zsim.Fail("C17.partial_not_reported", "stream cut at offset %d inside event %d: the partial trailing event was not reported as an error (output %s)", k, whole, clip(r.out, 200))
